@@ -225,9 +225,14 @@ def consensus(
     # removes all existing phase information and re-adds only what is passed to it)
     already_phased = set()
     for pos, phase in phased.items():
-        if phase is None or phase.block_id is None or len(phase.phase) != 2:
+        if phase is None or len(phase.phase) != 2:
             continue
         already_phased.add(pos)
+        if not phase.block_id:
+            # A phased genotype without a phase set (no PS in the record: block id 0; PS
+            # missing: block id None). There is nothing to re-add: the writer leaves a
+            # call that it is not given a phase for as it is.
+            continue
         components[pos] = int(phase.block_id) - 1
         for haplotype in (0, 1):
             super_reads[haplotype].append(Variant(pos, allele=phase.phase[haplotype], quality=0))
